@@ -51,8 +51,8 @@ def trustOf (e : Env) : List Step → Trust → Trust
   | [], acc => acc
   | s :: ss, acc =>
     trustOf e ss (match s.act with
-      | .require .caLoads => if s.guard.eval e then .locations e.cfg.caFileSet e.cfg.caPathSet else acc
-      | .defaultVerifyPaths => if s.guard.eval e then .default else acc
+      | .require .caLoads => if s.guard.eval e then { acc with file := acc.file || e.cfg.caFileSet, path := acc.path || e.cfg.caPathSet } else acc
+      | .defaultVerifyPaths => if s.guard.eval e then { acc with dflt := true } else acc
       | _ => acc)
 
 def certOf (e : Env) : List Step → Bool → Bool
@@ -111,7 +111,7 @@ theorem buildCtx_eq (blk : CtxBlock) (role : Mode) (cfg : Cfg) (f : Files) :
       if blk.create.eval { cfg := cfg } then
         if refusedIn { cfg := cfg } f blk.steps then .refused
         else .built { role := role, verify := verifyOf { cfg := cfg } blk.steps [], minProto := minOf { cfg := cfg } blk.steps none,
-                      trust := trustOf { cfg := cfg } blk.steps .none, certLoaded := certOf { cfg := cfg } blk.steps false,
+                      trust := trustOf { cfg := cfg } blk.steps {}, certLoaded := certOf { cfg := cfg } blk.steps false,
                       keyLoaded := keyOf { cfg := cfg } blk.steps false, anon := anonOf { cfg := cfg } blk.steps false,
                       depth := depthOf { cfg := cfg } blk.steps none }
       else .absent := by
@@ -125,7 +125,7 @@ theorem server_built (cfg : Cfg) (f : Files) (c : Ctx) (h : buildCtx serverCtx .
     c.role = .server ∧
     c.verify = (if cfg.verifyPeer then [.peer, .failIfNoPeerCert] else []) ∧
     c.minProto = applyFloorMin none cfg.minVersion ∧
-    c.trust = (if cfg.verifyPeer && (cfg.caFileSet || cfg.caPathSet) then .locations cfg.caFileSet cfg.caPathSet else .none) ∧
+    c.trust = (if cfg.verifyPeer && (cfg.caFileSet || cfg.caPathSet) then { file := cfg.caFileSet, path := cfg.caPathSet, dflt := false } else {}) ∧
     c.certLoaded = (cfg.certFileSet && cfg.keyFileSet) ∧ c.keyLoaded = (cfg.certFileSet && cfg.keyFileSet) ∧
     c.anon = (cfg.ciphers == .enablesAnon) := by
   rw [buildCtx_eq] at h
@@ -143,7 +143,7 @@ theorem client_built (cfg : Cfg) (f : Files) (c : Ctx) (h : buildCtx clientCtx .
     c.role = .client ∧
     c.verify = (if cfg.verifyPeer then [.peer] else []) ∧
     c.minProto = applyFloorMin none cfg.minVersion ∧
-    c.trust = (if cfg.verifyPeer then (if cfg.caFileSet || cfg.caPathSet then .locations cfg.caFileSet cfg.caPathSet else .default) else .none) ∧
+    c.trust = (if cfg.verifyPeer then (if cfg.caFileSet || cfg.caPathSet then { file := cfg.caFileSet, path := cfg.caPathSet, dflt := false } else { dflt := true }) else {}) ∧
     c.anon = (cfg.ciphers == .enablesAnon) := by
   rw [buildCtx_eq] at h
   split at h
@@ -610,14 +610,33 @@ def HState.Coherent (s : HState) : Prop := s.applied = none ∨ s.applied = some
 theorem hStep_coherent (s : HState) (o : HOp) (h : s.Coherent) : (hStep s o).1.Coherent := by
   cases o with
   | touch =>
-    rcases h with h | h <;> simp [hStep, HState.Coherent, h]
+    cases hd : s.dead <;> rcases h with h | h <;> simp [hStep, HState.Coherent, h, hd]
+  | touchFail =>
+    simp only [hStep, initFailureReleasesTransport]
+    cases ha : s.applied <;> cases hd : s.dead <;> simp [HState.Coherent, ha, hd] <;> rcases h with h | h <;> simp_all
   | setTls c =>
     simp only [hStep, setTlsConfigRejectsChangeAfterInit, Bool.true_and]
     rcases h with h | h
-    · simp [HState.Coherent, h]
+    · cases hd : s.dead
+      · simp [HState.Coherent, h]
+      · by_cases hc : s.stored = c
+        · subst hc; simp [HState.Coherent, h]
+        · simp [HState.Coherent, h, hc]
     · by_cases hc : s.stored = c
       · subst hc; simp [HState.Coherent, h]
       · simp [HState.Coherent, h, hc]
+
+/-- a failed initialisation never leaves a dead transport behind -/
+theorem hStep_alive (s : HState) (o : HOp) (h : s.dead = false) : (hStep s o).1.dead = false := by
+  cases o with
+  | touch => simp [hStep, h]
+  | touchFail => simp only [hStep, initFailureReleasesTransport]; cases s.applied <;> simp [h]
+  | setTls c => simp only [hStep]; split <;> simp [h]
+
+theorem hRun_alive (s : HState) (ops : List HOp) (h : s.dead = false) : (hRun s ops).dead = false := by
+  induction ops generalizing s with
+  | nil => exact h
+  | cons o os ih => exact ih _ (hStep_alive s o h)
 
 theorem hRun_coherent (s : HState) (ops : List HOp) (h : s.Coherent) : (hRun s ops).Coherent := by
   induction ops generalizing s with
